@@ -1,6 +1,7 @@
 /-
 Line-protocol driver for C13 (fields separated by single spaces; byte strings in hex, "-" = empty).
-  RESET                      empty trie                                   -> ok
+  RESET                      empty trie (both sides)                      -> ok
+  COPY | SIDE n              copy the active trie to the other side | address side n (0/1)   -> ok
   U k v                      Trie.Update(k, v)   (empty v deletes)        -> ok | crash
   G k                        Trie.Get(k)                                  -> val:<hex> | absent
   H                          Trie.Hash()                                  -> <hex32>
@@ -18,8 +19,8 @@ Line-protocol driver for C13 (fields separated by single spaces; byte strings in
   DBINS h size k,k,...       db.insert of a node with these hash children         -> ok
   DBREF h | DBDEREF h                                                             -> ok
   DBCAP n | DBCOMMIT h       -> ok <n>:<digest of the node hashes in the order they are written>
-  DBDUMP                     mem=<n>:<digest> meta=<n>:<digest> disk=<n>:<digest> ordered-closed=<bool>
-                             (the last field evaluates the hypotheses of db_commit_children_first on the state)
+                             (DBCOMMIT adds ordered-closed=<bool>: the hypotheses of db_commit_children_first on the state before)
+  DBDUMP                     mem=<n>:<digest> meta=<n>:<digest> disk=<n>:<digest>
   DBDUMPFULL                 the same in full text
 -/
 import YouVerif.C13.Model
@@ -77,7 +78,7 @@ def digest (s : String) : String := (hexOfList (K s.toUTF8.toList)).take 16 |>.t
 def dbDump (s : Db.State) (full : Bool) : String :=
   let (a, b, c) := dbText s
   if full then s!"mem={a} meta={b} disk={c}"
-  else s!"mem={s.mem.length}:{digest a} meta={s.roots.length}:{digest b} disk={s.disk.length}:{digest c} ordered-closed={Db.orderedClosed s}"
+  else s!"mem={s.mem.length}:{digest a} meta={s.roots.length}:{digest b} disk={s.disk.length}:{digest c}"
 
 def orderDigest (l : List (List UInt8)) : String :=
   s!"{l.length}:{digest (String.intercalate "," (l.map hexOfList))}"
@@ -92,7 +93,7 @@ def dbStep (s : Db.State) : List String → Option (Db.State × String)
   | ["DBREF", h] => (hx h).map fun h => (Db.reference s h, "ok")
   | ["DBDEREF", h] => (hx h).map fun h => (Db.dereference s h, "ok")
   | ["DBCAP", n] => (nat? n).map fun n => (Db.cap s n, "ok " ++ orderDigest (Db.capOrder s n))
-  | ["DBCOMMIT", h] => (hx h).map fun h => (Db.commit s h, "ok " ++ orderDigest (Db.commitOrder s h))
+  | ["DBCOMMIT", h] => (hx h).map fun h => (Db.commit s h, "ok " ++ orderDigest (Db.commitOrder s h) ++ s!" ordered-closed={Db.orderedClosed s}")
   | ["DBDUMP"] => some (s, dbDump s false)
   | ["DBDUMPFULL"] => some (s, dbDump s true)
   | _ => none
@@ -164,13 +165,31 @@ def step (t : Node) (line : String) : Node × String :=
     | none => (t, "bad-op")
   | _ => (t, "bad-op")
 
-def step2 (st : Node × Db.State) (line : String) : (Node × Db.State) × String :=
+/-- driver state: two live tries (value semantics: a copy is just another value), the active side, the Database model -/
+structure DState where
+  t0 : Node := .empty
+  t1 : Node := .empty
+  side : Nat := 0
+  db : Db.State := {}
+
+def step2 (st : DState) (line : String) : DState × String :=
   if line.startsWith "DB" then
-    match dbStep st.2 (fields line) with
-    | some (d, out) => ((st.1, d), out)
+    match dbStep st.db (fields line) with
+    | some (d, out) => ({ st with db := d }, out)
     | none => (st, "bad-op")
   else
-    let (t, out) := step st.1 line
-    ((t, st.2), out)
+    match fields line with
+    | ["COPY"] =>
+      -- Trie struct copy / SecureTrie.Copy: the other side becomes the same value
+      (if st.side == 0 then { st with t1 := st.t0 } else { st with t0 := st.t1 }, "ok")
+    | ["SIDE", n] => ({ st with side := if n == "1" then 1 else 0 }, "ok")
+    | ["RESET"] => ({ st with t0 := .empty, t1 := .empty, side := 0 }, "ok")
+    | _ =>
+      if st.side == 0 then
+        let (t, out) := step st.t0 line
+        ({ st with t0 := t }, out)
+      else
+        let (t, out) := step st.t1 line
+        ({ st with t1 := t }, out)
 
-def main : IO Unit := runLoop ((Node.empty, {}) : Node × Db.State) step2
+def main : IO Unit := runLoop ({} : DState) step2
